@@ -286,6 +286,30 @@ def pk_family():
     return out
 
 
+def index_family():
+    """deterministic family: an indexed column (or its table) gets a new name, and a LATER mutation drops or
+    adds the index — one mutation at a time this must work whatever the index is called by then"""
+    def fld(name, t, related=None, **attrs):
+        return {'name': name, 'type': t, 'attrs': attrs, 'related': related}
+    spec = {'apps': [{'id': 'vapp', 'models': [
+        {'name': 'Order', 'table': 'vapp_order', 'fields': [
+            fld('id', 'AutoField', primary_key=True), fld('reference', 'CharField', max_length=20, db_index=True),
+            fld('amount', 'IntegerField', null=True)],
+         'unique_together': [], 'index_together': [], 'indexes': [], 'constraints': []}]}]}
+    cf = lambda model, field, *attrs: {'t': 'ChangeField', 'model': model, 'field': field, 'ftype': None,
+                                       'initial': None, 'attrs': [list(a) for a in attrs]}
+    return [
+        (spec, [{'t': 'RenameField', 'model': 'Order', 'old': 'reference', 'new': 'order_no', 'db_column': None,
+                 'db_table': None}, cf('Order', 'order_no', ('db_index', 'false'))]),
+        (spec, [cf('Order', 'reference', ('db_column', '"ref_col"')), cf('Order', 'reference', ('db_index', 'false'))]),
+        (spec, [{'t': 'RenameModel', 'old': 'Order', 'new': 'Purchase', 'db_table': 'vapp_purchase'},
+                cf('Purchase', 'reference', ('db_index', 'false'))]),
+        (spec, [{'t': 'RenameField', 'model': 'Order', 'old': 'amount', 'new': 'total', 'db_column': None,
+                 'db_table': None}, cf('Order', 'total', ('db_index', 'true'))]),
+        (spec, [cf('Order', 'reference', ('db_index', 'false')), cf('Order', 'reference', ('db_index', 'true'))]),
+    ]
+
+
 def family_case(spec, muts):
     sig = dbrig.sig_from_models(dbrig.build_models(spec))
     r = sigs.real_simulate(sig, 'vapp', [sigs.real_mutation(m) for m in muts])
@@ -361,13 +385,13 @@ def run(ctx):
     schema_reqs, schema_pend = [], []
     done = 0
     tries = 0
-    family = pk_family()
+    family = pk_family() + index_family()
     while done < n and tries < n * 4 and ctx.time_left() > 25:
         tries += 1
         if family:
             hinted = False
             g = family_case(*family.pop(0))
-            ctx.count('family:pk_rename_then_rebuild')
+            ctx.count('family:pk_rename/index_after_rename')
         else:
             hinted = ctx.rng.random() < 0.3
             g = gen_case(ctx.rng, hinted)
